@@ -426,10 +426,16 @@ func registerMisc(e *Engine) {
 		if !ok {
 			// a pattern given on the command line: assumed to compile (an invalid one is
 			// rejected by the tool at start-up); matching against it is not modelled
-			m.note("assumption: the --redactFieldsRegexp value is a valid regular expression")
 			o := &Opaque{kind: "regexp", data: &regexObj{pattern: "<symbolic>", id: -1}}
 			if must {
+				m.note("assumption: the --redactFieldsRegexp value is a valid regular expression")
 				return o
+			}
+			// regexp.Compile on a computed pattern: it may be invalid, and the error text quotes the
+			// pattern (uninterpreted function of the pattern, refined against the native compiler)
+			emsg := TUF("pure:regexp.compileErr#0", SStr, pat.Term())
+			if m.branch(TNot(TEq(emsg, TStr("")))) {
+				return Tuple{(*Opaque)(nil), m.newError(mkStrT(emsg))}
 			}
 			return Tuple{o, Iface{}}
 		}
@@ -812,6 +818,10 @@ func registerJSON(e *Engine) {
 		s := argStr(a[1])
 		m.bufAppend(a[0], s)
 		return Tuple{lenOfStr(s), Iface{}}
+	}
+	in["(*bytes.Buffer).AvailableBuffer"] = func(m *Machine, fr *frame, a []Value) Value {
+		arr := []Value{}
+		return Slice{arr: &arr}
 	}
 	in["(*bytes.Buffer).Bytes"] = func(m *Machine, fr *frame, a []Value) Value {
 		s := m.bufGet(a[0])
